@@ -33,10 +33,46 @@ def gen_residual(rng, n, kind):
         r[rng.integers(n)] *= -1
     elif kind == 'wide':
         r = r * 10.0 ** rng.integers(-8, 8, n)
+    elif kind == 'equalneg':
+        # every negative residual identical: their standard deviation is exactly 0 (the _safe_std path)
+        r = np.where(r < 0, -mag, np.abs(r) + mag * 1e-3)
+        if (r < 0).sum() < 2:
+            r[:2] = -mag
     return r
 
 
-KINDS = ['mixed', 'allpos', 'allneg', 'ties', 'oneneg', 'wide']
+KINDS = ['mixed', 'allpos', 'allneg', 'ties', 'oneneg', 'wide', 'equalneg']
+FIT_KINDS = ['allneg', 'negdom', 'posdom', 'allpos', 'zero', 'negzero', 'maxzero']
+C1EM6 = 1e-6
+
+
+def gen_fit(rng, n, kind):
+    """Fits of every sign pattern for the default-eps path of _quantile (documented:
+    eps = (1e-6 * max(abs(fit)))**2)."""
+    mag = 10.0 ** rng.choice([-30, -8, -3, 0, 0, 2, 4, 9, 60])
+    f = rng.normal(0, 1, n) * mag
+    if kind == 'allneg':
+        f = -np.abs(f) - mag * 1e-3
+    elif kind == 'negdom':          # mixed signs, the largest magnitude is negative
+        f[rng.integers(n)] = -(np.abs(f).max() * rng.choice([1.5, 10.0, 1e3]) + mag)
+    elif kind == 'posdom':
+        f[rng.integers(n)] = np.abs(f).max() * rng.choice([1.5, 10.0, 1e3]) + mag
+    elif kind == 'allpos':
+        f = np.abs(f) + mag * 1e-3
+    elif kind == 'zero':
+        f = np.zeros(n)
+    elif kind == 'negzero':
+        f = -np.zeros(n)
+    elif kind == 'maxzero':         # non-positive fit touching zero: max(fit) = 0, max(abs(fit)) > 0
+        f = -np.abs(f)
+        f[rng.integers(n)] = 0.0
+    return f
+
+
+def indep_std(neg):
+    """Standard deviation (ddof=1) of the negative residuals, computed WITHOUT the implementation's
+    _safe_std: the model applies the `== 0 -> _MIN_FLOAT` protection itself."""
+    return float(np.std(neg, ddof=1))
 
 
 def impl():
@@ -57,15 +93,17 @@ def correspondence(ctx):
     rng = np.random.default_rng(ctx.seed)
     lits = []
     meta = []
-    ncase = ctx.n(240, 2400)
+    ncase = ctx.n(336, 2688)
+    from pybaselines.utils import _MIN_FLOAT
+    RULES = ['asls', 'drpls', 'lsrpls', 'iarpls', 'quantile', 'exit', 'quantile_default', 'quantile_default']
     for c in range(ncase):
         n = int(rng.choice([3, 4, 5, 8, 17, 40]))
-        kind = KINDS[(c // 6) % len(KINDS)]
+        kind = KINDS[(c // len(RULES)) % len(KINDS)]
         r = gen_residual(rng, n, kind)
         base = rng.normal(0, 1, n) * (np.abs(r).max() + 1e-300) * rng.choice([0.0, 1.0, 1e3])
         y = base + r
         r = y - base            # the residual exactly as the implementation computes it
-        rule = ['asls', 'drpls', 'lsrpls', 'iarpls', 'quantile', 'exit'][c % 6]
+        rule = RULES[c % len(RULES)]
         it = int(rng.choice([1, 2, 5, 50, 100, 101, 200]))
         neg = r[r < 0]
         nontriv = (neg.size >= 2) and (r > 0).any()
@@ -83,23 +121,44 @@ def correspondence(ctx):
                              {'kind': 'rule', 'rule': rule, 'y': y.tolist(), 'baseline': base.tolist(), 'iteration': it})
                 lits.append(f'(5%nat, [], {flist(y)}, {flist(base)}, [], {coqbool(bool(early))})')
             else:
-                std = call(W._safe_std, neg, ddof=1)
+                std = indep_std(neg)        # raw; the model applies the == 0 protection (safe_std)
                 mean = np.mean(neg)
+                mf = hexf(_MIN_FLOAT)
                 if rule == 'drpls':
                     scale = np.exp(min(it, 100))
-                    lits.append(f'(1%nat, [{hexf(scale)}; {hexf(std)}; {hexf(mean)}], {flist(y)}, {flist(base)}, {flist(got)}, {coqbool(bool(early))})')
+                    lits.append(f'(1%nat, [{hexf(scale)}; {hexf(std)}; {hexf(mean)}; {mf}], {flist(y)}, {flist(base)}, {flist(got)}, {coqbool(bool(early))})')
                 elif rule == 'lsrpls':
                     scale = float(10 ** min(it, 100))
-                    lits.append(f'(1%nat, [{hexf(scale)}; {hexf(std)}; {hexf(mean)}], {flist(y)}, {flist(base)}, {flist(got)}, {coqbool(bool(early))})')
+                    lits.append(f'(1%nat, [{hexf(scale)}; {hexf(std)}; {hexf(mean)}; {mf}], {flist(y)}, {flist(base)}, {flist(got)}, {coqbool(bool(early))})')
                 else:
                     scale = np.exp(min(it, 100))
-                    lits.append(f'(2%nat, [{hexf(scale)}; {hexf(std)}], {flist(y)}, {flist(base)}, {flist(got)}, {coqbool(bool(early))})')
+                    lits.append(f'(2%nat, [{hexf(scale)}; {hexf(std)}; {mf}], {flist(y)}, {flist(base)}, {flist(got)}, {coqbool(bool(early))})')
         elif rule == 'quantile':
+            # explicit eps, including values below the floor max(eps, _MIN_FLOAT) and eps <= 0
             q = float(rng.choice([0.01, 0.05, 0.5, 0.95]))
-            eps = float(rng.choice([1e-12, 1e-6, 1.0])) * (np.abs(r).max() ** 2 + 1e-300)
+            eps = float(rng.choice([1e-12, 1e-6, 1.0, 0.0, 1e-30, -1.0])) * (np.abs(r).max() ** 2 + 1e-300)
             got = call(W._quantile, y, base, q, eps)
-            from pybaselines.utils import _MIN_FLOAT
-            lits.append(f'(3%nat, [{hexf(q)}; {hexf(max(eps, _MIN_FLOAT))}], {flist(y)}, {flist(base)}, {flist(got)}, false)')
+            lits.append(f'(3%nat, [{hexf(q)}; {hexf(C1EM6)}; {hexf(_MIN_FLOAT)}; {hexf(0.0)}; {hexf(eps)}], '
+                        f'{flist(y)}, {flist(base)}, {flist(got)}, true)')
+        elif rule == 'quantile_default':
+            # eps=None: the default must be (1e-6 * max(abs(fit)))**2 for fits of EVERY sign pattern; the
+            # reduction max(abs(fit)) is computed here, independently of the implementation
+            fkind = FIT_KINDS[(c // len(RULES)) % len(FIT_KINDS)]
+            kind = 'fit-' + fkind
+            q = float(rng.choice([0.01, 0.05, 0.5, 0.95]))
+            base = gen_fit(rng, n, fkind)
+            mx = float(np.max(np.abs(base)))
+            rr = rng.normal(0, 1, n) * (mx * float(rng.choice([1e-9, 1e-6, 1e-3, 1.0])) + 1e-300)
+            rr[rng.random(n) < 0.2] = 0.0
+            y = base + rr
+            r = y - base
+            t = np.float64(mx) * C1EM6
+            if float(t ** 2) != float(t * t):
+                continue    # libm pow(t, 2) not equal to the rounded product (about 1 input in 10^4): not modelled
+            got = call(W._quantile, y, base, q)
+            nontriv = bool((base < 0).any())
+            lits.append(f'(3%nat, [{hexf(q)}; {hexf(C1EM6)}; {hexf(_MIN_FLOAT)}; {hexf(mx)}], '
+                        f'{flist(y)}, {flist(base)}, {flist(got)}, false)')
         else:
             # early-exit flags of every rule that has one
             flags = []
@@ -116,7 +175,7 @@ def correspondence(ctx):
         meta.append((rule, kind, n))
         ctx.case((rule, kind, n, it, r.tobytes()), nontrivial=nontriv, kind=f'rule:{rule}:{kind}')
     ctx.sample({'kind': 'rule-case', 'coq_literal': lits[1][:300]})
-    ob = 'correspondence:weighting-rules-bit-exact(asls,drpls,lsrpls,iarpls,quantile,early-exit flags)'
+    ob = 'correspondence:weighting-rules-bit-exact(asls,drpls,lsrpls,iarpls incl. _safe_std,quantile incl. eps=None default and floor,early-exit flags)'
     ctx.obligations.append(ob)
     bad = False
     per = 400
@@ -132,9 +191,11 @@ Definition ok (c : nat * list float * list float * list float * list float * boo
   let rs := residuals Num_F ys bs in
   match rule with
   | 0%nat => fl_eqb (map (fun yb => asls_w Num_F (par ps 0) (fst yb) (snd yb)) (combine ys bs)) exp
-  | 1%nat => fl_eqb (map (drpls_w Num_F (par ps 0) (par ps 1) (par ps 2)) rs) exp && Bool.eqb (exit_early Num_F rs) flag
-  | 2%nat => fl_eqb (map (iarpls_w Num_F (par ps 0) (par ps 1)) rs) exp && Bool.eqb (exit_early Num_F rs) flag
-  | 3%nat => fl_eqb (map (quantile_w Num_F (par ps 0) (par ps 1)) rs) exp
+  | 1%nat => fl_eqb (map (drpls_full_w Num_F (par ps 3) (par ps 0) (par ps 1) (par ps 2)) rs) exp && Bool.eqb (exit_early Num_F rs) flag
+  | 2%nat => fl_eqb (map (iarpls_full_w Num_F (par ps 2) (par ps 0) (par ps 1)) rs) exp && Bool.eqb (exit_early Num_F rs) flag
+  | 3%nat => (* flag = explicit eps given (5th parameter) / eps=None *)
+             fl_eqb (map (quantile_full_w Num_F (par ps 1) (par ps 2) (par ps 0) (par ps 3)
+                                          (if flag then Some (par ps 4) else None)) rs) exp
   | 5%nat => Bool.eqb (exit_early Num_F rs) flag
   | 6%nat => Bool.eqb (exit_early_brpls Num_F rs) flag
   | _ => false
@@ -260,6 +321,12 @@ def oracle(ctx, budget):
                 wa[r < 0] = np.exp(np.clip(t * neg, 0, logmax - np.spacing(logmax)))
                 wa[r < 0] /= wa[r < 0].max()
                 ref['airpls'] = wa
+            # the explicitly un-normalised airPLS option: same exponent, no division by the largest weight
+            wa_raw = call(W._airpls, y, base, it, False)[0]
+            raw_ref = doc_weights('airpls', y, base, it=it, normalize=False)
+            if raw_ref is not None and not close_ulp(wa_raw, raw_ref)[0]:
+                ctx.fail('rule:airpls:formula-unnormalised', 'airpls(normalize_weights=False): differs from the documented formula',
+                         {'kind': 'rule-oracle', 'rule': 'airpls', 'y': y.tolist(), 'baseline': base.tolist(), 'iteration': it})
             for name, rv in ref.items():
                 w = outs[name][0]
                 d = ulp_diff(w, rv)
@@ -268,10 +335,254 @@ def oracle(ctx, budget):
                              {'kind': 'rule-oracle', 'rule': name, 'y': y.tolist(), 'baseline': base.tolist(), 'iteration': it, 'p': p, 'k': k})
 
 
+def oracle_defaults(ctx, budget):
+    """_quantile with eps=None on fits of every sign pattern: finite, > 0, and equal to the documented
+    formula with eps = (1e-6 * max(abs(fit)))**2 floored at _MIN_FLOAT."""
+    W = impl()
+    rng = np.random.default_rng(ctx.seed + 11)
+    for c in range(70 * budget):
+        fkind = FIT_KINDS[c % len(FIT_KINDS)]
+        n = int(rng.choice([3, 8, 40]))
+        fit = gen_fit(rng, n, fkind)
+        mx = float(np.max(np.abs(fit)))
+        y = fit + rng.normal(0, 1, n) * (mx * float(rng.choice([1e-9, 1e-6, 1e-3, 1.0])) + 1e-300)
+        q = float(rng.choice([0.01, 0.05, 0.5, 0.95]))
+        w = call(W._quantile, y, fit, q)
+        ref = doc_weights('quantile', y, fit, quantile=q)
+        case = {'kind': 'rule-oracle', 'rule': 'quantile', 'y': y.tolist(), 'baseline': fit.tolist(), 'quantile': q, 'eps': None}
+        ctx.case(('oracle-default', 'quantile', fkind, n, c), nontrivial=bool((fit < 0).any()), kind=f'oracle:quantile-default:{fkind}')
+        if not np.all(np.isfinite(w)) or np.any(w <= 0):
+            ctx.fail('rule:quantile:default-eps:range', f'_quantile(eps=None) on a {fkind} fit: weight not finite and > 0', case)
+        elif not close_ulp(w, ref, ulps=4)[0]:
+            ctx.fail('rule:quantile:default-eps', f'_quantile(eps=None) on a {fkind} fit (max|fit|={mx:.3g}, max fit={fit.max():.3g}) differs from the '
+                     'documented default eps = (1e-6 * max(abs(fit)))**2', case)
+
+
+# ------------------------------------------------------------------ documented formulas (independent)
+def doc_weights(rule, y, b, it=1, p=0.01, k=None, coef=0.5, quantile=0.05, eps=None, normalize=True):
+    """The documented reweighting formula evaluated independently of _weighting.py on (data, baseline of
+    the step), with the documented DEFAULTS for everything that is not passed.  Returns None where the
+    documented early exit applies (fewer than two negative residuals)."""
+    from scipy.special import expit
+    from pybaselines.utils import _MIN_FLOAT
+    y = np.asarray(y, dtype=float).ravel()
+    b = np.asarray(b, dtype=float).ravel()
+    r = y - b
+    neg = r[r < 0]
+    with np.errstate(all='ignore'):
+        if rule == 'asls':
+            return np.where(y > b, p, 1 - p)
+        if rule == 'quantile':
+            if eps is None:
+                eps = (1e-6 * np.max(np.abs(b))) ** 2        # docstring: (1e-6 * max(abs(fit)))**2
+            return np.where(r > 0, quantile, 1 - quantile) / np.sqrt(r ** 2 + max(eps, _MIN_FLOAT))
+        if rule == 'psalsa':
+            return np.where(r > 0, p * np.exp(-np.where(r > 0, r, 0) / k), 1 - p)
+        if neg.size < 2:
+            return None
+        std = np.std(neg, ddof=1)
+        if std == 0:
+            std = _MIN_FLOAT
+        m = np.mean(neg)
+        if rule == 'arpls':
+            return expit(-(2 / std) * (r - (2 * std - m)))
+        if rule == 'aspls':
+            return expit(-(coef / std) * (r - std))
+        if rule in ('drpls', 'lsrpls'):
+            scale = np.exp(min(it, 100)) if rule == 'drpls' else float(10 ** min(it, 100))
+            inner = scale / std * (r - (2 * std - m))
+            return 0.5 * (1 - inner / (1 + np.abs(inner)))
+        if rule == 'iarpls':
+            inner = np.exp(min(it, 100)) / std * (r - 2 * std)
+            return 0.5 * (1 - inner / np.sqrt(1 + inner ** 2))
+        if rule == 'airpls':
+            t = min(it, 50) / neg.sum()
+            logmax = np.log(np.finfo(float).max)
+            w = np.zeros(y.size)
+            w[r < 0] = np.exp(np.clip(t * neg, 0, logmax - np.spacing(logmax)))
+            if normalize:
+                w[r < 0] /= w[r < 0].max()
+            return w
+    raise AssertionError(rule)
+
+
+# host method -> (rule, 1-based pass index?)  -- every single-loop host whose returned weights are, on
+# exhaustion of max_iter, the rule applied to the returned baseline (C09_returned_pair)
+HOST_RULES = {
+    'asls': ('asls', False), 'iasls': ('asls', False), 'pspline_asls': ('asls', False), 'pspline_iasls': ('asls', False),
+    'airpls': ('airpls', True), 'pspline_airpls': ('airpls', True),
+    'arpls': ('arpls', False), 'pspline_arpls': ('arpls', False),
+    'drpls': ('drpls', True), 'pspline_drpls': ('drpls', True),
+    'iarpls': ('iarpls', True), 'pspline_iarpls': ('iarpls', True),
+    'lsrpls': ('lsrpls', True), 'pspline_lsrpls': ('lsrpls', True),
+    'aspls': ('aspls', False), 'pspline_aspls': ('aspls', False),
+    'psalsa': ('psalsa', False), 'pspline_psalsa': ('psalsa', False),
+    'irsqr': ('quantile', False),
+}
+HOST_DATA = ['positive', 'negated', 'below-zero', 'far-below-zero', 'centred', 'tiny-scale']
+
+
+def host_data(y, kind):
+    if kind == 'negated':
+        return -y
+    if kind == 'below-zero':          # recorded entirely below zero, largest value just under 0
+        return y - (y.max() + 0.25)
+    if kind == 'far-below-zero':
+        return y - 1e4
+    if kind == 'centred':
+        return y - np.median(y)
+    if kind == 'tiny-scale':
+        return (y - (y.max() + 0.25)) * 1e-9
+    return y
+
+
+def close_ulp(w, ref, ulps=64):
+    w = np.asarray(w, dtype=float).ravel()
+    ref = np.asarray(ref, dtype=float).ravel()
+    if w.shape != ref.shape:
+        return False, float('inf')
+    d = ulp_diff(w, ref)
+    worst = float(np.nanmax(d)) if d.size else 0.0
+    ok = bool(np.all((d <= ulps) | (np.abs(w - ref) <= 1e-13 * np.maximum(1.0, np.abs(ref)))))
+    return ok and bool(np.array_equal(np.isnan(w), np.isnan(ref))), worst
+
+
+def host_oracle(ctx, budget):
+    """Hosts in 1-D and 2-D, default parameters of the rules (eps, k, asymmetric_coef, normalize_weights,
+    iteration number), data of every sign / scale pattern: with tol never satisfied the loop runs out of
+    max_iter, and the returned weights must then be the documented formula applied to the RETURNED step's
+    baseline (C09_returned_pair, Exhausted case)."""
+    from . import methods as M
+    from pybaselines import Baseline, Baseline2D
+    rng = np.random.default_rng(ctx.seed + 23)
+    prng = __import__('random').Random(ctx.seed + 23)
+    n1 = 46
+    x = M.make_x(prng, n1)
+    y0 = M.make_y(rng, x)
+    x2, z2, y20 = M.make_z2d(rng, 11, 12)
+    NEVER = -1.0
+    nchecked = 0
+    iters = [0, 2] if budget == 1 else [0, 1, 2, 5]
+    for two_d in (False, True):
+        names = [n for n in M.method_names(two_d) if n in HOST_RULES]
+        for name in names:
+            rule, one_based = HOST_RULES[name]
+            for dk in HOST_DATA:
+                y = host_data(y20 if two_d else y0, dk)
+                for mi in iters:
+                    variants = [{}]
+                    if rule == 'airpls':
+                        variants = [{}, {'normalize_weights': False}]
+                    elif rule == 'aspls' and mi == iters[-1]:
+                        variants = [{}, {'asymmetric_coef': 2.0}]
+                    elif rule == 'psalsa' and mi == iters[-1]:
+                        variants = [{}, {'k': float(np.std(y))}]
+                    elif rule == 'quantile' and mi == iters[-1]:
+                        variants = [{}, {'eps': 1e-3}, {'quantile': 0.6}]
+                    for var in variants:
+                        case = {'kind': 'host', 'method': name, 'two_d': two_d, 'data': dk, 'max_iter': mi, 'variant': var,
+                                'seed': ctx.seed}
+                        kw = M.call_kwargs(name, two_d, max_iter=mi, tol=NEVER, **var)
+                        try:
+                            with warnings.catch_warnings():
+                                warnings.simplefilter('ignore')
+                                fit = Baseline2D(x2, z2) if two_d else Baseline(x)
+                                b, prm = getattr(fit, name)(y, **kw)
+                        except Exception as exc:  # noqa -- raising is C01's business
+                            ctx.case(('host-raise', name, two_d, dk, mi, repr(var)), nontrivial=False, kind='host:raised:' + type(exc).__name__)
+                            continue
+                        th = np.asarray(prm['tol_history'])
+                        exhausted = th.ndim == 1 and len(th) == mi + 1
+                        ctx.case(('host', name, two_d, dk, mi, repr(var)), nontrivial=exhausted, kind=f'host:{rule}:{dk}')
+                        if not exhausted:
+                            continue       # documented early exit: the weights of the previous pass are returned
+                        it = mi + 1 if one_based else mi
+                        args = dict(it=it)
+                        if rule == 'asls':
+                            args['p'] = kw.get('p', 0.01)
+                        elif rule == 'psalsa':
+                            args['p'] = kw.get('p', 0.5)
+                            args['k'] = var.get('k', np.std(y) / 10)     # documented default: one tenth of std(data)
+                        elif rule == 'aspls':
+                            args['coef'] = var.get('asymmetric_coef', 0.5)
+                        elif rule == 'airpls':
+                            args['normalize'] = var.get('normalize_weights', True)
+                        elif rule == 'quantile':
+                            args['quantile'] = var.get('quantile', 0.05)
+                            args['eps'] = var.get('eps')
+                        ref = doc_weights(rule, y, b, **args)
+                        if ref is None:
+                            continue
+                        ok, worst = close_ulp(prm['weights'], ref)
+                        nchecked += 1
+                        if not ok:
+                            ctx.fail(f'host:{name}:{"2d" if two_d else "1d"}:weights-vs-documented-rule',
+                                     f'{name} ({"2-D" if two_d else "1-D"}, data {dk}, max_iter={mi}, {var or "default parameters"}): the returned weights '
+                                     f'differ from the documented {rule} rule applied to the returned baseline by {worst:.3g} ulp', case)
+        # derpsalsa hosts (default k = std(data)/10): weights = (residual part with the documented k) * partial
+        # weights, and the partial weights depend on the data only -- the quotient must not depend on max_iter
+        for name in [n for n in M.method_names(two_d) if n in ('derpsalsa', 'pspline_derpsalsa')]:
+            for dk in HOST_DATA:
+                y = host_data(y20 if two_d else y0, dk)
+                quot = []
+                for mi in (0, 2):
+                    try:
+                        with warnings.catch_warnings():
+                            warnings.simplefilter('ignore')
+                            b, prm = getattr(Baseline(x), name)(y, **M.call_kwargs(name, two_d, max_iter=mi, tol=NEVER))
+                    except Exception:  # noqa
+                        break
+                    if len(prm['tol_history']) != mi + 1:
+                        break
+                    r = y - b
+                    p_, k_ = 0.01, np.std(y) / 10
+                    with np.errstate(all='ignore'):
+                        part = np.where(r > 0, p_ * np.exp(-0.5 * (np.where(r > 0, r, 0) / k_) ** 2), 1 - p_)
+                    quot.append((prm['weights'], part))
+                ctx.case(('host', name, two_d, dk, 'quotient'), nontrivial=len(quot) == 2, kind=f'host:derpsalsa:{dk}')
+                if len(quot) == 2:
+                    (w0, p0), (w2, p2) = quot
+                    good = (p0 > 1e-250) & (p2 > 1e-250)
+                    q0, q2 = w0[good] / p0[good], w2[good] / p2[good]
+                    nchecked += 1
+                    if good.sum() and (not np.allclose(q0, q2, rtol=1e-9, atol=1e-300) or q0.max() > 1 + 1e-9):
+                        ctx.fail(f'host:{name}:1d:weights-vs-documented-rule',
+                                 f'{name} (data {dk}): weights / (documented residual term with k = std(data)/10, p = 0.01) is not the same '
+                                 'partial-weight vector for max_iter 0 and 2, or exceeds 1', {'kind': 'host', 'method': name, 'data': dk, 'seed': ctx.seed})
+        # quant_reg: the weights of pass k are the rule applied to the baseline of pass k-1
+        for dk in HOST_DATA:
+            y = host_data(y20 if two_d else y0, dk)
+            for mi in ([2] if budget == 1 else [2, 3, 6]):
+                for var in ({}, {'eps': 1e-3}):
+                    case = {'kind': 'host', 'method': 'quant_reg', 'two_d': two_d, 'data': dk, 'max_iter': mi, 'variant': var,
+                            'seed': ctx.seed}
+                    try:
+                        with warnings.catch_warnings():
+                            warnings.simplefilter('ignore')
+                            mk = (lambda: Baseline2D(x2, z2)) if two_d else (lambda: Baseline(x))
+                            b_prev, p_prev = mk().quant_reg(y, max_iter=mi - 1, tol=NEVER, **var)
+                            b_k, p_k = mk().quant_reg(y, max_iter=mi, tol=NEVER, **var)
+                    except Exception as exc:  # noqa
+                        ctx.case(('host-raise', 'quant_reg', two_d, dk, mi, repr(var)), nontrivial=False, kind='host:raised:' + type(exc).__name__)
+                        continue
+                    ok_len = len(p_prev['tol_history']) == mi - 1 and len(p_k['tol_history']) == mi
+                    ctx.case(('host', 'quant_reg', two_d, dk, mi, repr(var)), nontrivial=ok_len, kind=f'host:quantile:{dk}')
+                    if not ok_len:
+                        continue
+                    ref = doc_weights('quantile', y, b_prev, quantile=0.05, eps=var.get('eps'))
+                    ok, worst = close_ulp(p_k['weights'], ref, ulps=16)     # sqrt followed by **2: a few ulp
+                    nchecked += 1
+                    if not ok:
+                        ctx.fail(f'host:quant_reg:{"2d" if two_d else "1d"}:weights-vs-documented-rule',
+                                 f'quant_reg ({"2-D" if two_d else "1-D"}, data {dk}, max_iter={mi}, {var or "default eps"}): the returned weights differ '
+                                 f'from the documented quantile rule applied to the baseline of the previous pass by {worst:.3g} ulp', case)
+    return nchecked
+
+
 def run(ctx):
     ctx.rule = ('residual vectors of size 3..100, magnitudes 1e-100..1e100, kinds mixed/all-positive/all-negative/ties-at-zero/'
                 'one-negative/wide; bit-exact cases for asls, drpls, lsrpls, iarpls, quantile and the early-exit flags of all rules; '
-                'oracle cases for every rule; trace validation of the stop rule on every iterative method (shared with C01); '
+                'oracle cases for every rule (incl. eps=None on fits of every sign pattern, un-normalised airpls, zero standard deviation); hosts (1-D and 2-D, default rule parameters, data positive / negated / below zero / far below zero / centred / tiny) with tol never met: returned weights vs the documented rule on the returned baseline; trace validation of the stop rule on every iterative method (shared with C01); '
                 'non-trivial = at least two negative and one positive residual (rules), returning call with non-empty record (traces)')
     ctx.trusted += [
         'Coq Reals standard axioms (ClassicalDedekindReals.sig_forall_dec, sig_not_dec, functional_extensionality_dep; '
@@ -287,12 +598,44 @@ def run(ctx):
     c01.trace_validation(ctx)
     budget = 1 if (ok and not ctx.broken and ctx.tier == 'quick') else 6
     oracle(ctx, budget)
-    ctx.note(f'oracle budget x{budget}; brpls value formula (erf) only range/monotone checked')
+    oracle_defaults(ctx, budget)
+    nh = host_oracle(ctx, budget)
+    ctx.note(f'oracle budget x{budget}; brpls value formula (erf) and its beta -> 1 guard only range/monotone checked; '
+             f'{nh} returned (weights, baseline) pairs of 1-D/2-D hosts compared with the documented rule at default parameters; '
+             'derpsalsa hosts through the invariance of the partial weights only; mixture_model / brpls hosts (nested or carried '
+             'state) not compared with a formula')
+
+
+class _ReplayCtx:
+    """Minimal stand-in for Ctx when an oracle is re-run for a replay."""
+    def __init__(self, seed):
+        self.seed = seed
+        self.fails = []
+
+    def case(self, *a, **k):
+        pass
+
+    def fail(self, key, what, case):
+        self.fails.append((key, what))
 
 
 def replay(rep):
     case = rep.get('case') or {}
     print('replay case keys:', list(case))
+    if case.get('kind') == 'host':
+        rc = _ReplayCtx(case.get('seed', 0))
+        host_oracle(rc, 1)
+        hits = [w for k, w in rc.fails if k == rep.get('key')]
+        print('replay host oracle:', hits[0] if hits else 'property holds on the recorded host/data/seed')
+        return 1 if hits else 0
+    if case.get('kind') == 'rule-oracle' and case.get('rule') == 'quantile' and 'quantile' in case:
+        W = impl()
+        y = np.array(case['y'])
+        b = np.array(case['baseline'])
+        w = call(W._quantile, y, b, case['quantile'])
+        ok = close_ulp(w, doc_weights('quantile', y, b, quantile=case['quantile']), ulps=4)[0]
+        print('replay _quantile(eps=None):', 'property holds on this input' if ok else 'differs from the documented default eps')
+        return 0 if ok else 1
     if case.get('kind') in ('rule', 'rule-oracle') and 'y' in case:
         W = impl()
         y = np.array(case['y'])
